@@ -43,6 +43,9 @@ def wantsMore (x : Stream) : Bool :=
 
 /-- a stream that got all it asked for (`additional`, limited by request and window) and not just
     what the connection had left does not want more -/
+theorem wrapSubU32_big {a b : Nat} (h1 : a < b) (h2 : b ≤ 2147483647) : 2147483648 ≤ wrapSubU32 a b := by
+  unfold wrapSubU32 U32_MOD; omega
+
 theorem not_wantsMore_after_full_assign {x : Stream} (hok : FlOk x.sendFlow) (hreq : x.requestedSendCapacity < 4294967296)
     (y : Stream) (hy1 : y.requestedSendCapacity = x.requestedSendCapacity)
     (hy2 : y.sendFlow = (x.sendFlow.assignCapacity
@@ -53,9 +56,6 @@ theorem not_wantsMore_after_full_assign {x : Stream} (hok : FlOk x.sendFlow) (hr
   have hlt := hok.windowSz_lt
   have hb : wrapSubU32 x.sendFlow.windowSz x.sendFlow.available.asSize = x.sendFlow.windowSz - x.sendFlow.available.asSize :=
     wrapSubU32_le (by omega) hle
-  have ha : wrapSubU32 x.requestedSendCapacity x.sendFlow.available.asSize =
-      (x.requestedSendCapacity + 4294967296 - x.sendFlow.available.asSize) % 4294967296 := by
-    unfold wrapSubU32 U32_MOD; omega
   have hassign := flOk_assign hok (n := min (wrapSubU32 x.requestedSendCapacity x.sendFlow.available.asSize)
     (wrapSubU32 x.sendFlow.windowSz x.sendFlow.available.asSize)) (Nat.min_le_right _ _)
   have hF1 : y.sendFlow.available.val = x.sendFlow.available.val +
@@ -63,24 +63,323 @@ theorem not_wantsMore_after_full_assign {x : Stream} (hok : FlOk x.sendFlow) (hr
         (wrapSubU32 x.sendFlow.windowSz x.sendFlow.available.asSize) : Nat) : Int) := by rw [hy2]; exact hassign.2.1
   have hF2 : y.sendFlow.windowSize.val = x.sendFlow.windowSize.val := by rw [hy2, hassign.2.2]
   have h0 := hok.av0; have hw := hok.avw; have hhi := hok.whi
-  rw [ha, hb] at hF1
+  rw [hb] at hF1
   have hsz1 : x.sendFlow.available.asSize = x.sendFlow.available.val.toNat := asSize_eq _
   have hsz2 : x.sendFlow.windowSz = x.sendFlow.windowSize.val.toNat := asSize_eq _
   rw [hsz1, hsz2] at hF1 hle
   rw [hsz2] at hlt
-  generalize y.sendFlow.available.val = ya at hF1
-  generalize y.sendFlow.windowSize.val = yw at hF2
-  have key : (ya.toNat < x.requestedSendCapacity → ¬ (0 ≤ yw ∧ yw > ya)) ∧ 0 ≤ ya := by
-    subst hF2
-    refine ⟨fun h1 h2 => ?_, by omega⟩
-    rcases Nat.le_total ((x.requestedSendCapacity + 4294967296 - x.sendFlow.available.val.toNat) % 4294967296)
-      (x.sendFlow.windowSize.val.toNat - x.sendFlow.available.val.toNat) with hc | hc
-    · rw [Nat.min_eq_left hc] at hF1; omega32
-    · rw [Nat.min_eq_right hc] at hF1; omega
   unfold wantsMore Window.ltUsize FlowControl.hasUnavailable
   rw [hy1]
   show ((if y.sendFlow.available.val < 0 then true else decide (y.sendFlow.available.val.toNat < x.requestedSendCapacity)) &&
     (if y.sendFlow.windowSize.val < 0 then false else decide (y.sendFlow.windowSize.val > y.sendFlow.available.val))) = false
-  sorry
+  generalize y.sendFlow.available.val = ya at hF1 ⊢
+  generalize y.sendFlow.windowSize.val = yw at hF2 ⊢
+  have key : (ya.toNat < x.requestedSendCapacity → ¬ (0 ≤ yw ∧ yw > ya)) ∧ 0 ≤ ya := by
+    subst hF2
+    refine ⟨fun h1 h2 => ?_, by rw [hF1]; exact Int.add_nonneg h0 (Int.natCast_nonneg _)⟩
+    rcases Nat.lt_or_ge x.requestedSendCapacity x.sendFlow.available.val.toNat with hlt' | hge
+    · -- more assigned than requested (never seen): the `u32` difference wraps, the window limits
+      have hbig := wrapSubU32_big hlt' (by omega)
+      rw [Nat.min_eq_right (by omega)] at hF1
+      omega
+    · rw [wrapSubU32_le hreq hge] at hF1
+      rcases Nat.le_total (x.requestedSendCapacity - x.sendFlow.available.val.toNat)
+        (x.sendFlow.windowSize.val.toNat - x.sendFlow.available.val.toNat) with hc | hc
+      · rw [Nat.min_eq_left hc] at hF1; omega
+      · rw [Nat.min_eq_right hc] at hF1; omega
+  have hya : ¬ ya < 0 := by omega
+  simp only [hya, if_false]
+  by_cases hyw : yw < 0
+  · simp [hyw]
+  · simp only [hyw, if_false]
+    by_cases h1 : ya.toNat < x.requestedSendCapacity
+    · have := key.1 h1
+      have : ¬ (yw > ya) := fun h => this ⟨by omega, h⟩
+      simp [this]
+    · simp [h1]
+
+theorem ReqOk.modStream {s : Streams} (h : ReqOk s) (id : Nat) (f : Stream → Stream)
+    (hf : ∀ x, (f x).requestedSendCapacity = x.requestedSendCapacity) : ReqOk (s.modStream id f) := by
+  unfold Streams.modStream
+  split
+  · rename_i st hget
+    intro y hy
+    simp only [Streams.setStream, Store.set, List.mem_map] at hy
+    obtain ⟨x, hx, rfl⟩ := hy
+    split
+    · rw [hf]; exact h st (get?_mem hget).1
+    · exact h x hx
+  · intro y hy; rw [panic_store] at hy; exact h y hy
+
+theorem ReqOk.modStreamW {s : Streams} (h : ReqOk s) (id : Nat) (f : Stream → Stream × List String)
+    (hf : ∀ x, (f x).1.requestedSendCapacity = x.requestedSendCapacity) : ReqOk (s.modStreamW id f) := by
+  unfold Streams.modStreamW
+  split
+  · rename_i st hget
+    intro y hy
+    simp only [Streams.wake, Streams.setStream, Store.set, List.mem_map] at hy
+    obtain ⟨x, hx, rfl⟩ := hy
+    split
+    · rw [hf]; exact h st (get?_mem hget).1
+    · exact h x hx
+  · intro y hy; rw [panic_store] at hy; exact h y hy
+
+theorem ReqOk.same {s t : Streams} (h : ReqOk s) (hs : t.store.slab = s.store.slab) : ReqOk t := by
+  intro y hy; rw [hs] at hy; exact h y hy
+
+theorem ReqOk.qPush {s : Streams} (h : ReqOk s) (q : QName) (id : Nat) : ReqOk (s.qPush q id).1 := by
+  unfold Streams.qPush
+  split
+  · exact h
+  · have h1 := h.modStream id (fun st => st.setQueued q true) (by intro x; cases q <;> rfl)
+    exact h1.same (by cases q <;> rfl)
+
+theorem stream_modStreamW_self {s : Streams} {id : Nat} {st : Stream} (h : s.store.get? id = some st)
+    (f : Stream → Stream × List String) (hk : (f st).1.key = st.key) : (s.modStreamW id f).stream id = (f st).1 := by
+  have hm := get?_mem h
+  unfold Streams.modStreamW; rw [h]
+  show ((s.setStream (f st).1).wake (f st).2).stream id = _
+  unfold Streams.stream Streams.wake Streams.setStream
+  simp only
+  rw [get?_set_self h (hk.trans hm.2)]; rfl
+
+/-- `try_assign_capacity` puts the stream back into `pending_capacity` only when the connection has
+    nothing left -/
+theorem tryAssign_queue {s : Streams} (h : SafeInv s) (hr : ReqOk s) (id : Nat) :
+    ((s.tryAssignCapacity id).prio.pendingCapacity = s.prio.pendingCapacity ∨
+      ((s.tryAssignCapacity id).prio.pendingCapacity = s.prio.pendingCapacity ++ [id] ∧
+        (s.tryAssignCapacity id).prio.flow.available.val ≤ 0)) ∧
+    ReqOk (s.tryAssignCapacity id) := by
+  unfold Streams.tryAssignCapacity
+  dsimp only
+  split
+  · exact ⟨Or.inl rfl, hr⟩
+  split
+  · exact ⟨Or.inl rfl, hr⟩
+  rename_i hadd
+  split
+  · exact ⟨Or.inl rfl, hr⟩
+  generalize hS1 : (if _ > 0 then _ else s) = S1
+  have key : S1.prio.pendingCapacity = s.prio.pendingCapacity ∧ ReqOk S1 ∧
+      (wantsMore (S1.stream id) = true → S1.prio.flow.available.val ≤ 0) := by
+    subst hS1
+    split
+    · rename_i hpos
+      refine ⟨by rw [prio_modPrio, modStreamW_prio], ?_, ?_⟩
+      · exact (hr.modStreamW id _ (fun x => assignCapacity_req x _ _)).same rfl
+      · intro hwm
+        have hex := assign_exact h id (min s.prio.flow.available.asSize
+          (min (wrapSubU32 (s.stream id).requestedSendCapacity (s.stream id).sendFlow.available.asSize)
+            (wrapSubU32 (s.stream id).sendFlow.windowSz (s.stream id).sendFlow.available.asSize)))
+          s.prio.maxBufferSize (Nat.min_le_left ..) (Nat.le_trans (Nat.min_le_right ..) (Nat.min_le_right ..))
+        rw [hex.2.2.2]
+        have hA0 := h.a0
+        rcases Nat.le_total s.prio.flow.available.asSize
+          (min (wrapSubU32 (s.stream id).requestedSendCapacity (s.stream id).sendFlow.available.asSize)
+            (wrapSubU32 (s.stream id).sendFlow.windowSz (s.stream id).sendFlow.available.asSize)) with hc | hc
+        · rw [Nat.min_eq_left hc, asSize_eq]; omega
+        · -- the stream got all of `additional`: it does not want more
+          exfalso
+          rw [Nat.min_eq_right hc] at hwm
+          cases hget : s.store.get? id with
+          | none =>
+            have hb : s.stream id = { key := id, id := 0 } := by unfold Streams.stream; rw [hget]; rfl
+            simp only [hb] at hadd
+            have e1 : ({ key := id, id := 0 } : Stream).sendFlow.windowSz = 0 := rfl
+            have e2 : ({ key := id, id := 0 } : Stream).sendFlow.available.asSize = 0 := rfl
+            rw [e1, e2, wrapSubU32_le (a := 0) (by omega) (Nat.le_refl _)] at hadd
+            exact hadd (Nat.min_eq_zero_iff.2 (Or.inr rfl))
+          | some st =>
+            rw [stream_of_get hget] at hwm
+            have hkf := assignCapacity_kf st (min (wrapSubU32 st.requestedSendCapacity st.sendFlow.available.asSize)
+              (wrapSubU32 st.sendFlow.windowSz st.sendFlow.available.asSize)) s.prio.maxBufferSize
+            have hstream : ((s.modStreamW id fun x => x.assignCapacity
+                (min (wrapSubU32 st.requestedSendCapacity st.sendFlow.available.asSize)
+                  (wrapSubU32 st.sendFlow.windowSz st.sendFlow.available.asSize)) s.prio.maxBufferSize).modPrio
+                fun p => { p with flow := (p.flow.claimCapacity
+                  (min (wrapSubU32 st.requestedSendCapacity st.sendFlow.available.asSize)
+                    (wrapSubU32 st.sendFlow.windowSz st.sendFlow.available.asSize))).1 }).stream id = _ :=
+              stream_modStreamW_self hget _ hkf.1
+            rw [hstream] at hwm
+            have := not_wantsMore_after_full_assign (h.st st (get?_mem hget).1) (hr st (get?_mem hget).1) _
+              (assignCapacity_req st _ _) hkf.2
+            rw [this] at hwm; cases hwm
+    · rename_i hnp
+      refine ⟨rfl, hr, fun _ => ?_⟩
+      rw [asSize_eq] at hnp; omega
+  obtain ⟨hpc, hr1, hwm⟩ := key
+  clear hS1
+  have hq := qPush_pc S1 id
+  have hA : (S1.qPush .pendingCapacity id).1.prio.flow = S1.prio.flow := qPush_flow _ _ _
+  have hWdef : ((S1.stream id).sendFlow.available.ltUsize (S1.stream id).requestedSendCapacity &&
+      (S1.stream id).sendFlow.hasUnavailable) = wantsMore (S1.stream id) := rfl
+  simp only [hWdef]
+  have hfin : ∀ (S2 : Streams) (b : Bool), (if b = true then (S2.qPush .pendingSend id).1 else S2).prio.pendingCapacity =
+      S2.prio.pendingCapacity ∧ (if b = true then (S2.qPush .pendingSend id).1 else S2).prio.flow = S2.prio.flow ∧
+      (ReqOk S2 → ReqOk (if b = true then (S2.qPush .pendingSend id).1 else S2)) := by
+    intro S2 b; cases b
+    · exact ⟨rfl, rfl, fun h => h⟩
+    · exact ⟨qPush_pc_other _ _, qPush_flow _ _ _, fun h => h.qPush _ _⟩
+  have hf := hfin (if wantsMore (S1.stream id) = true then (S1.qPush .pendingCapacity id).1 else S1)
+    (decide ((S1.stream id).bufferedSendData > 0) && (S1.stream id).isSendReady)
+  rw [hf.1, hf.2.1]
+  refine ⟨?_, hf.2.2 ?_⟩
+  · by_cases hw : wantsMore (S1.stream id) = true
+    · simp only [hw, if_true]
+      rcases hq with hq | hq
+      · exact Or.inl (hq.trans hpc)
+      · exact Or.inr ⟨by rw [hq, hpc], by rw [hA]; exact hwm hw⟩
+    · simp only [hw, if_false]
+      exact Or.inl hpc
+  · split
+    · exact hr1.qPush _ _
+    · exact hr1
+
+-- ===================================================================== `transition_after` keeps queues and requests
+
+theorem ReqOk.panic {s : Streams} (h : ReqOk s) (m : String) : ReqOk (s.panic m) := h.same (by rw [panic_store])
+theorem ReqOk.modCountsA {s : Streams} (h : ReqOk s) (w : String) (f : Counts → Option Counts) :
+    ReqOk (s.modCountsA w f) := by
+  unfold Streams.modCountsA; split
+  · exact h.same rfl
+  · exact h.panic _
+theorem ReqOk.modCounts {s : Streams} (h : ReqOk s) (f : Counts → Counts) : ReqOk (s.modCounts f) := h.same rfl
+theorem ReqOk.withStoreUnlink {s : Streams} (h : ReqOk s) (id : Nat) : ReqOk { s with store := s.store.unlink id } :=
+  h.same rfl
+theorem ReqOk.withStoreRemoveLeak {s : Streams} (h : ReqOk s) (k n : Nat) :
+    ReqOk { s with store := s.store.remove k, recvBufferLeaked := n } := by
+  intro y hy
+  exact h y (List.mem_filter.1 hy).1
+theorem ReqOk.modStream' {s : Streams} {id : Nat} {f : Stream → Stream}
+    (hf : ∀ x, (f x).requestedSendCapacity = x.requestedSendCapacity) (h : ReqOk s) : ReqOk (s.modStream id f) :=
+  h.modStream id f hf
+
+syntax "req_peel" : tactic
+macro_rules | `(tactic| req_peel) => `(tactic| first
+  | with_reducible apply ReqOk.panic
+  | with_reducible apply ReqOk.modCountsA
+  | with_reducible apply ReqOk.modCounts
+  | (guard_mk; with_reducible apply ReqOk.withStoreUnlink)
+  | (guard_mk; with_reducible apply ReqOk.withStoreRemoveLeak)
+  | (with_reducible apply ReqOk.modStream'; (· intro _; rfl)))
+macro "req_auto" : tactic => `(tactic| repeat' (first
+  | with_reducible assumption | (guard_not_mk; req_peel) | req_peel | split | dsimp only))
+
+theorem ReqOk.decNumStreams {s : Streams} (h : ReqOk s) (id : Nat) : ReqOk (s.decNumStreams id) := by
+  unfold Streams.decNumStreams; dsimp only; req_auto
+macro_rules | `(tactic| req_peel) => `(tactic| with_reducible apply ReqOk.decNumStreams)
+
+theorem ReqOk.transitionAfter {s : Streams} (h : ReqOk s) (id : Nat) (b : Bool) : ReqOk (s.transitionAfter id b) := by
+  unfold Streams.transitionAfter; dsimp only; req_auto
+
+theorem transitionAfter_prio (t : Streams) (id : Nat) (b : Bool) : (t.transitionAfter id b).prio = t.prio := by
+  obtain ⟨t1, hx, hc⟩ := transitionAfter_cases t id b
+  rcases hc with hc | ⟨_, _, _, hp, _, _⟩
+  · rw [hc, hx.prio]
+  · rw [hp, hx.prio]
+
+-- ===================================================================== the queue
+
+theorem qPop_pc {s s' : Streams} {r : Option Nat} (h : s.qPop .pendingCapacity = (s', r)) :
+    (r = none ∧ s' = s ∧ s.prio.pendingCapacity = []) ∨
+    (∃ id, r = some id ∧ s.prio.pendingCapacity = id :: s'.prio.pendingCapacity ∧ s'.prio.flow = s.prio.flow) := by
+  unfold Streams.qPop at h
+  split at h
+  · rename_i hq
+    cases h
+    exact Or.inl ⟨rfl, rfl, hq⟩
+  · rename_i id rest hq
+    cases h
+    refine Or.inr ⟨id, rfl, ?_, ?_⟩
+    · rw [modStream_prio]; exact hq
+    · rw [modStream_prio]; rfl
+
+theorem ReqOk.qPop {s : Streams} (h : ReqOk s) (q : QName) : ReqOk (s.qPop q).1 := by
+  unfold Streams.qPop
+  split
+  · exact h
+  · refine ReqOk.modStream (h.same (by cases q <;> rfl)) _ _ (by intro x; cases q <;> rfl)
+
+theorem gtUsize_zero_false {w : Window} (h : w.gtUsize 0 = false) : w.val ≤ 0 := by
+  unfold Window.gtUsize at h
+  split at h
+  · omega
+  · simp at h; omega
+
+theorem loop_stop (fuel : Nat) {s : Streams} (h : s.prio.flow.available.gtUsize 0 = false) :
+    Streams.assignConnectionCapacityLoop fuel s = s := by
+  cases fuel with
+  | zero => rfl
+  | succ n => unfold Streams.assignConnectionCapacityLoop; simp [h]
+
+/-- **`assign_connection_capacity`'s loop drains**: it ends with the connection holding nothing or with
+    `pending_capacity` empty; `len + 1` units of fuel are enough -/
+theorem loop_drains (fuel : Nat) : ∀ {s : Streams}, SafeInv s → ReqOk s → s.prio.pendingCapacity.length < fuel →
+    (Streams.assignConnectionCapacityLoop fuel s).prio.flow.available.val ≤ 0 ∨
+    (Streams.assignConnectionCapacityLoop fuel s).prio.pendingCapacity = [] := by
+  induction fuel with
+  | zero => intro s _ _ h; omega
+  | succ n ih =>
+    intro s h hr hlen
+    unfold Streams.assignConnectionCapacityLoop
+    split
+    · split
+      · rename_i s' heq
+        rcases qPop_pc heq with ⟨_, hs, hq⟩ | ⟨id, hid, _, _⟩
+        · right; rw [hs]; exact hq
+        · cases hid
+      · rename_i s' id heq
+        have hs' : SafeInv s' := SafeInvG.of_fst_eq heq (h.fr ((Fr.refl _).qPop _))
+        have hr' : ReqOk s' := by have := hr.qPop .pendingCapacity; rw [heq] at this; exact this
+        rcases qPop_pc heq with ⟨hn, _, _⟩ | ⟨id', hid, hq, _⟩
+        · cases hn
+        · cases hid
+          rw [hq] at hlen
+          simp only [List.length_cons] at hlen
+          dsimp only
+          split
+          · first
+            | exact ih hs' hr' (by omega)
+            | exact ih (hs'.fr ((Fr.refl _).transitionAfter _ _)) (hr'.transitionAfter _ _)
+                (by rw [transitionAfter_prio]; omega)
+          · have hT := tryAssign_queue hs' hr' id
+            have hs2 := hs'.tryAssignCapacity id
+            rcases hT.1 with hpc | ⟨hpc, hA⟩
+            · exact ih (hs2.fr ((Fr.refl _).transitionAfter _ _)) (hT.2.transitionAfter _ _)
+                (by rw [transitionAfter_prio, hpc]; omega)
+            · left
+              have hstop : ((s'.tryAssignCapacity id).transitionAfter id (s'.stream id).isPendingResetExpiration).prio.flow.available.gtUsize 0 = false := by
+                rw [transitionAfter_prio]
+                unfold Window.gtUsize
+                split
+                · rfl
+                · simp; omega
+              rw [loop_stop n hstop, transitionAfter_prio]
+              exact hA
+    · rename_i hng
+      left
+      exact gtUsize_zero_false (by simpa using hng)
+
+/-- `assign_connection_capacity(inc)`: what was handed back is passed on until the connection has
+    nothing left or nobody waits -/
+theorem assignConnectionCapacity_drains {s : Streams} {inc : Nat} (h : SafeInvG inc s) (hr : ReqOk s) :
+    (s.assignConnectionCapacity inc).prio.flow.available.val ≤ 0 ∨
+    (s.assignConnectionCapacity inc).prio.pendingCapacity = [] := by
+  unfold Streams.assignConnectionCapacity
+  dsimp only
+  have hA := h.av_le
+  have hA0 := h.a0
+  have hW := h.whi
+  have hc := conn_assign (f := s.prio.flow) h.a0 (n := inc) (by omega)
+  have hc1 := hc.1
+  have hs1 : SafeInv (s.modPrio fun p => { p with flow := (p.flow.assignCapacity inc).1 }) := by
+    refine h.conn rfl (Int.le_refl _) ?_ ?_ ?_
+    · show 0 ≤ (s.prio.flow.assignCapacity inc).1.available.val
+      omega
+    · show (s.prio.flow.assignCapacity inc).1.windowSize.val ≤ _
+      rw [hc.2]; exact hW
+    · show (s.prio.flow.assignCapacity inc).1.available.val - _ + _ ≤ (s.prio.flow.assignCapacity inc).1.windowSize.val - _
+      rw [hc.2]; omega
+  exact loop_drains _ hs1 (hr.same rfl) (by show s.prio.pendingCapacity.length < s.prio.pendingCapacity.length + 2; omega)
 
 end H2V.Lemmas.ConnFlowP
